@@ -305,6 +305,12 @@ def finding_signature(hist, res):
     if probe and probe[0] == "tb":
         return "F9:stale-icc-profile:tj3TransformBufSize"
     if probe and probe[0] == "uy":
+        try:
+            before = (res["ops"][-2]["S"] if len(res["ops"]) >= 2 else res["init"]).split()[1].split(",")
+            if before[4] != "1":
+                return "F12:stale-marker-flags:tj3DecodeYUV8-after-Adobe-marker-JPEG"
+        except (KeyError, IndexError):
+            pass
         return "F10:stale-master-lossless:tj3DecodeYUV8-after-lossless-decode"
     if probe and probe[0] in ("t", "lt") and not crash and res.get("fresh") and res["ops"]:
         try:
@@ -489,6 +495,8 @@ def to_model_call(idx, toks, res, pre, post, flags):
                   "colorspace": pp["colorspace"], "ncomp": 3, "o_xDensity": pp["xDensity"], "o_yDensity": pp["yDensity"],
                   "o_densityUnits": pp["densityUnits"], "o_losslessPSV": pp["losslessPSV"], "o_losslessPt": pp["losslessPt"],
                   "tables_only": 1 if (i == 22 and kind == "") else 0})
+        if len(d) >= 14:
+            a.update({"jfif": d[11], "adobe": d[12], "adobe_tr": d[13]})
         selfc = 0 if (i == 23 or kind in ("r", "k", "x")) else 1
         return i, kind, selfc
 
